@@ -100,6 +100,10 @@ pub enum ROp {
     /// adapt_io on harness fd slot; `live_before`: the slot already had a live adapter
     Adapt { slot: u8, fd: i32, live_before: bool, regular_file: bool, nonblocking_before: bool },
     AsyncRelease { a: usize, fd: i32, into_inner: bool },
+    /// readable()/writable() of adapter `a` polled once (result in the following AsyncPolled)
+    AsyncWait { a: usize, write: bool },
+    /// harness wrote to the peer of / read from the adapter's fd
+    AsyncIo { a: usize },
     InsertBad { which: u8, fd: i32 },
 }
 
@@ -154,6 +158,12 @@ pub enum Ev {
     Epoll { entries: Vec<(i32, u32, u64)> },
     /// result of adapt_io: adapter index when Ok; O_NONBLOCK flag of the fd right after the call
     Adapted { a: Option<usize>, nonblocking_after: bool },
+    /// outcome of the single poll of readable()/writable()
+    AsyncPolled { a: usize, ready: bool },
+    /// poll(2) ground truth for a live adapter's fd, taken right before a dispatch
+    AsyncFd { a: usize, r: bool, w: bool },
+    /// total number of wake-ups the adapter's counting waker has received (reported at the end of each dispatch)
+    AsyncWakes { a: usize, n: u64 },
     /// O_NONBLOCK of the fd after the adapter was released
     AsyncReleased { a: usize, nonblocking_after: bool },
     /// teardown markers
